@@ -20,9 +20,12 @@ pub fn run(case: &Value, em: &mut Emitter) {
     // TLC-enumerated bundles carry no session: a fixed one (next, nth(1), size_hint, then every second module)
     let steps: Vec<Value> = case.get("steps").and_then(|s| s.as_array().cloned()).unwrap_or_else(||
         vec![json!({"op": "next", "n": 0}), json!({"op": "nth", "n": 1}), json!({"op": "hint", "n": 0}), json!({"op": "step_by", "n": 2})]);
+  // every construction route: borrowed slice, owned vector
+  for route in ["slice", "vec"] {
     let out = guard(|| {
         let is = is_ram_bundle_slice(&bytes);
-        match RamBundle::parse_indexed_from_slice(&bytes) {
+        let parsed = if route == "slice" { RamBundle::parse_indexed_from_slice(&bytes) } else { RamBundle::parse_indexed_from_vec(bytes.clone()) };
+        match parsed {
             Err(_) => json!({"k": "err", "is": is}),
             Ok(b) => {
                 let count = b.module_count();
@@ -65,7 +68,8 @@ pub fn run(case: &Value, em: &mut Emitter) {
             }
         }
     });
-    em.emit("bundle", json!({"bytes": case["bytes"], "ids": ids, "steps": steps}), out);
+    em.emit("bundle", json!({"bytes": case["bytes"], "ids": ids, "steps": steps, "route": route}), out);
+  }
 }
 
 fn le(n: u32) -> [u8; 4] { n.to_le_bytes() }
